@@ -1,10 +1,12 @@
 ----------------------------- MODULE SmpTrace -----------------------------
-(* Trace validation for C13: one pairing between two real Devices (then a reconnection in
-   the same and in swapped roles) recorded at public boundaries; every logged event is one
-   action of Smp.tla fed with what was observed (user answers, key identities, flags), and
-   the properties of Smp.tla plus the observation-level clauses below must hold after it.
-   A step that is not a behaviour of the spec, or that breaks a property, is reported with
-   the name of the failing clause.                                                        *)
+(* Trace validation for C13: a HISTORY of pairings between two real Devices - per life one
+   pairing attempt, then reconnections in the same and in swapped roles that encrypt from the
+   key stores, bonds deleted by the user, and the next life ("life" event: new connection,
+   same or swapped roles, new configuration; only the key stores survive) - recorded at
+   public boundaries; every logged event is one action of Smp.tla fed with what was observed
+   (user answers, key identities, flags), and the properties of Smp.tla plus the
+   observation-level clauses below must hold after it.  A step that is not a behaviour of
+   the spec, or that breaks a property, is reported with the name of the failing clause.   *)
 EXTENDS Smp, Json, IOUtils, TLCExt
 
 Traces == JsonDeserialize(IOEnv.TRACE_FILE)
@@ -12,8 +14,9 @@ Traces == JsonDeserialize(IOEnv.TRACE_FILE)
 VARIABLES tid, l,
           kauth,   \* side -> some key of the 'pairing' event is flagged authenticated
           rep,     \* side -> outcome reported through the API ("none", "ok", "fail")
-          fin      \* what was measured at quiescence
-tvars == <<vars, tid, l, kauth, rep, fin>>
+          fin,     \* what was measured at quiescence
+          sid0     \* side -> identity of that device's key-store content when the life began (0 = empty)
+tvars == <<vars, tid, l, kauth, rep, fin, sid0>>
 
 T  == Traces[tid]
 Ev == T[l]
@@ -21,7 +24,8 @@ SetOf(q) == {q[j] : j \in DOMAIN q}
 ToCfg(c) == [io |-> c.io, sc |-> c.sc, mitm |-> c.mitm, bond |-> c.bond, oob |-> c.oob,
              ikd |-> SetOf(c.ikd), rkd |-> SetOf(c.rkd)]
 NoFin == [done |-> FALSE, hang |-> FALSE, has |-> [s \in S |-> FALSE], sauth |-> [s \in S |-> FALSE],
-          encd |-> [s \in S |-> FALSE], undisplayed |-> FALSE]
+          encd |-> [s \in S |-> FALSE], undisplayed |-> FALSE, sid |-> [s \in S |-> 0],
+          now |-> [s \in S |-> 0]]     \* sid: store content identity at quiescence; now: after the user's deletions since
 KEYT == {"encinfo", "mid", "idinfo", "idaddr", "sign"}
 
 Tx == LET s == Ev.s IN
@@ -65,33 +69,53 @@ Report ==
   LET s == Ev.s IN
   CASE Ev.t = "ok" ->
          /\ IF res[s] = "none" THEN Complete(s, FALSE) ELSE res[s] = "ok" /\ UNCHANGED vars
-         /\ rep' = [rep EXCEPT ![s] = "ok"] /\ UNCHANGED <<kauth, fin>>
+         /\ rep' = [rep EXCEPT ![s] = "ok"] /\ UNCHANGED <<kauth, fin, sid0>>
     [] Ev.t = "keys" ->
          /\ IF res[s] = "none" THEN Complete(s, FALSE) ELSE res[s] = "ok" /\ UNCHANGED vars
          /\ (neg[s].sc /\ Ev.k # 0) => Ev.k = lk.req            \* the stored SC LTK is the key the link runs on
          /\ kauth' = [kauth EXCEPT ![s] = Ev.b]
-         /\ rep' = [rep EXCEPT ![s] = "ok"] /\ UNCHANGED fin
+         /\ rep' = [rep EXCEPT ![s] = "ok"] /\ UNCHANGED <<fin, sid0>>
     [] Ev.t = "fail" ->
          /\ res[s] = "fail" /\ rep[s] # "ok"
-         /\ rep' = [rep EXCEPT ![s] = "fail"] /\ UNCHANGED <<vars, kauth, fin>>
+         /\ rep' = [rep EXCEPT ![s] = "fail"] /\ UNCHANGED <<vars, kauth, fin, sid0>>
     [] OTHER -> FALSE
 
 Quiesce ==
   /\ ~fin.done
   /\ fin' = [done |-> TRUE, hang |-> Ev.hang, has |-> [s \in S |-> IF s = "i" THEN Ev.has_i ELSE Ev.has_r],
              sauth |-> [s \in S |-> IF s = "i" THEN Ev.sauth_i ELSE Ev.sauth_r],
-             encd |-> [s \in S |-> IF s = "i" THEN Ev.enc_i ELSE Ev.enc_r], undisplayed |-> Ev.undisplayed]
-  /\ UNCHANGED <<vars, kauth, rep>>
+             encd |-> [s \in S |-> IF s = "i" THEN Ev.enc_i ELSE Ev.enc_r], undisplayed |-> Ev.undisplayed,
+             sid |-> [s \in S |-> IF s = "i" THEN Ev.sid_i ELSE Ev.sid_r],
+             now |-> [s \in S |-> IF s = "i" THEN Ev.sid_i ELSE Ev.sid_r]]
+  /\ UNCHANGED <<vars, kauth, rep, sid0>>
 
-Act == \/ Ev.e = "tx" /\ Tx /\ UNCHANGED <<kauth, rep, fin>>
-       \/ Ev.e = "rx" /\ Rx /\ UNCHANGED <<kauth, rep, fin>>
-       \/ Ev.e = "ui" /\ Ui /\ UNCHANGED <<kauth, rep, fin>>
-       \/ Ev.e = "encreq" /\ EncReq(Ev.k) /\ UNCHANGED <<kauth, rep, fin>>
-       \/ Ev.e = "ltkreply" /\ LtkReply(Ev.k) /\ UNCHANGED <<kauth, rep, fin>>
-       \/ Ev.e = "enc" /\ EncOn(Ev.s) /\ UNCHANGED <<kauth, rep, fin>>
+\* the user deletes the bond on the device in role Ev.s
+ForgetEv ==
+  /\ fin.done /\ Forget(Ev.s)
+  /\ fin' = [fin EXCEPT !.now[Ev.s] = 0]
+  /\ UNCHANGED <<kauth, rep, sid0>>
+
+\* the next life: new connection (Ev.swap: the other device is the central now), new configuration and scripts
+LifeEv ==
+  /\ fin.done
+  /\ NewLife(Ev.swap, [i |-> ToCfg(Ev.ci), r |-> ToCfg(Ev.cr)], [i |-> Ev.ai, r |-> Ev.ar], Ev.tamper, Ev.badround)
+  /\ sid0' = [s \in S |-> fin.now[IF Ev.swap THEN Other(s) ELSE s]]
+  /\ kauth' = [s \in S |-> FALSE]
+  /\ rep' = [s \in S |-> "none"]
+  /\ fin' = NoFin
+
+Obs0 == UNCHANGED <<kauth, rep, fin, sid0>>
+Act == \/ Ev.e = "tx" /\ Tx /\ Obs0
+       \/ Ev.e = "rx" /\ Rx /\ Obs0
+       \/ Ev.e = "ui" /\ Ui /\ Obs0
+       \/ Ev.e = "encreq" /\ EncReq(Ev.k) /\ Obs0
+       \/ Ev.e = "ltkreply" /\ LtkReply(Ev.k) /\ Obs0
+       \/ Ev.e = "enc" /\ EncOn(Ev.s) /\ Obs0
        \/ Ev.e = "report" /\ Report
        \/ Ev.e = "quiesce" /\ Quiesce
-       \/ Ev.e = "rebond" /\ fin.done /\ Rebond(Ev.s, Ev.k, Ev.k2) /\ UNCHANGED <<kauth, rep, fin>>
+       \/ Ev.e = "rebond" /\ fin.done /\ Rebond(Ev.s, Ev.k, Ev.k2) /\ Obs0
+       \/ Ev.e = "forget" /\ ForgetEv
+       \/ Ev.e = "life" /\ LifeEv
 
 (* ---------------- observation-level clauses ---------------- *)
 \* the responder "reports failure" also by never reporting success (DESIGN Appendix D)
@@ -103,13 +127,17 @@ ObsAgreement ==
   fin.done => /\ Outcome("i") = Outcome("r")
               /\ \A s \in S : rep[s] # "none" => rep[s] = res[s]
               /\ \A s \in S : res[s] = "ok" => /\ rep[s] = "ok" /\ fin.encd[s]
-                                               /\ neg[s].bond => fin.has[s]
+                                               /\ neg[s].bond => fin.has[s] /\ fin.sid[s] # 0
 \* the side that generated the passkey also showed it
 ObsModel == ~fin.undisplayed
-ObsHonest == \A s \in S : (kauth[s] \/ fin.sauth[s]) => MitmProtected(E.m)
-ObsNoKeys == fin.done => \A s \in S : res[s] # "ok" => ~fin.has[s]
-\* the key the central sends is one of the long-term keys of this pairing
-ObsRebond == \A c \in S : (rb[c][1] /\ rb[c][2] # 0) =>
+\* (the stored flags are those of this life's pairing only if it completed and replaced what was there: a failed attempt
+\* leaves an earlier bond alone, an unbonded one may)
+Replaced(s) == res[s] = "ok" /\ (neg[s].bond \/ sid0[s] = 0)
+ObsHonest == \A s \in S : (kauth[s] \/ (Replaced(s) /\ fin.sauth[s])) => MitmProtected(E.m)
+\* a pairing that did not complete leaves the key store as it was when the life began (or empty)
+ObsNoKeys == fin.done => \A s \in S : res[s] # "ok" => fin.sid[s] \in {0, sid0[s]}
+\* the key the central sends is one of the long-term keys of the latest pairing
+ObsRebond == \A c \in S : (rb[c][1] /\ rb[c][2] # 0 /\ Synced) =>
                 rb[c][2] \in ({store[c].ltk, store[c].mine, store[c].peers} \ {0})
 
 AllProps == /\ TypeOK /\ StraysHarmless /\ Agreement /\ ObsAgreement /\ Model /\ ObsModel /\ Honest /\ ObsHonest
@@ -136,7 +164,7 @@ Stuck == /\ l <= Len(T)
                rebond |-> ENABLED StepIf(RebondOk' /\ ObsRebond'),
                succeeds |-> ENABLED StepIf(Succeeds'),
                nohang |-> ENABLED StepIf(ObsNoHang'),
-               expect |-> E, ph |-> ph, meth |-> meth, res |-> res, rep |-> rep, mustfail |-> mustfail,
+               life |-> life, sid0 |-> sid0, expect |-> E, ph |-> ph, meth |-> meth, res |-> res, rep |-> rep, mustfail |-> mustfail,
                pk |-> pk, rd |-> rd, lk |-> lk, enc |-> enc, out |-> out, want |-> want,
                heads |-> [s \in S |-> IF chan[s] = <<>> THEN "-" ELSE Head(chan[s]).t],
                store |-> store]>>)
@@ -153,6 +181,7 @@ TraceInit ==
   /\ kauth = [s \in S |-> FALSE]
   /\ rep = [s \in S |-> "none"]
   /\ fin = NoFin
+  /\ sid0 = [s \in S |-> 0]
 TraceNext == Step \/ Done \/ Stuck
 TraceSpec == TraceInit /\ [][TraceNext]_tvars
 =============================================================================
